@@ -1,6 +1,7 @@
 package verifbench
 
 import (
+	"connectrpc.com/vanguard"
 	"fmt"
 	"strings"
 	"testing"
@@ -45,6 +46,10 @@ func projectResponse(rule *RuleSpec, m proto.Message) proto.Message {
 
 // panicViolation turns a recovered panic into a violation (any property).
 func panicViolation(res *CheckResult, out *Outcome) bool {
+	if out.Hang && out.HangWhy != "" {
+		res.violate("hang", "hang", "the exchange wedged: %s", out.HangWhy)
+		return true
+	}
 	if out.Hang {
 		res.violate("hang", "hang", "ServeHTTP did not return within %s although both peers had finished", watchdog)
 		return true
@@ -218,6 +223,28 @@ func featureSig(sc *Scenario, view *BackendView, dir string) string {
 
 func checkC01(sc *Scenario) *CheckResult {
 	res := &CheckResult{}
+	// Two of three cases run under the instrumented buffer pool (tag verif): a released buffer is
+	// overwritten with 0xA5 and handed out again first, so data read from a buffer after its release
+	// shows up as corrupted messages under the exact-delivery oracle below, and the pool's own
+	// bookkeeping reports double releases and writes after release.
+	instrumented := (len(sc.Client.Msgs)+len(sc.Backend.Msgs)+len(sc.Client.Headers)+len(sc.Config.Protocols))%3 != 0
+	if instrumented {
+		vanguard.VerifPoolEnable(true, len(sc.Backend.Trailers)%2 == 1)
+		defer vanguard.VerifPoolDisable()
+		defer func() {
+			st := vanguard.VerifPoolSnapshot(true)
+			vanguard.VerifPoolForgetLive()
+			if st.DoublePuts > 0 {
+				res.violate("double_release", "c01:pool:double_put", "%d pooled buffer(s) were released twice", st.DoublePuts)
+			}
+			if st.LiveGets > 0 {
+				res.violate("live_reuse", "c01:pool:live_get", "%d buffer(s) handed out while still in use", st.LiveGets)
+			}
+			if st.PoisonBroken > 0 {
+				res.violate("write_after_release", "c01:pool:poison", "%d released buffer(s) were written to after their release", st.PoisonBroken)
+			}
+		}()
+	}
 	out := runScenario(sc)
 	if out.BuildErr != "" {
 		res.Skipped = true
